@@ -363,7 +363,7 @@ fn random_value(rng: &mut Rng, depth: u32) -> J {
 impl Monitor for C16 {
     fn id(&self) -> &'static str { "C16" }
     fn rule(&self) -> &'static str {
-        "law checker: every pool value as anchor x all pool pairs (eq<=>cmp, antisymmetry, partial_cmp==cmp, operators, hash under SipHash and FNV, INT/REAL numeric order, per-type value order; the six WHERE operators evaluated by the engine on the pair: all answer, trichotomy, derived operators, agreement with the value order) and all pool triples (transitivity); random triples of nested values; consumer level: GROUP BY / DISTINCT / COUNT(DISTINCT) / array_unique / MIN / MAX / JOIN over REAL keys incl. -0.0, inf, NaN, with small and >128-element sets. Non-trivial = anchor case (each covers >= 2 distinct values of one type and INT-REAL pairs) or consumer case with >= 2 classes and a special REAL; distinct by case hash"
+        "law checker: every pool value as anchor x all pool pairs (eq<=>cmp, antisymmetry, partial_cmp==cmp, operators, hash under SipHash and FNV, INT/REAL numeric order, per-type value order; the six WHERE operators evaluated by the engine on the pair: all answer, trichotomy, derived operators, agreement with the value order) and all pool triples (transitivity); random triples of nested values; consumer level: GROUP BY / DISTINCT / COUNT(DISTINCT) / array_unique / MIN / MAX / PERCENTILE 0 and 1 (= least / greatest element of the engine's own order, NaN included) / JOIN over REAL keys incl. -0.0, inf, NaN, neighbouring doubles, with small and >128-element sets. Non-trivial = anchor case (each covers >= 2 distinct values of one type and INT-REAL pairs) or consumer case with >= 2 classes and a special REAL; distinct by case hash"
     }
     fn assumptions(&self) -> Vec<String> { vec!["reference equality: numbers by value, -0.0 = 0.0, NaN equal to itself and to nothing else".into()] }
     fn sizes(&self, tier: Tier) -> Sizes { match tier { Tier::Quick => Sizes { cases: 6_000, min_nontrivial: 60 }, Tier::Thorough => Sizes { cases: 400_000, min_nontrivial: 60 } } }
